@@ -1,4 +1,4 @@
-import BumpVerif.Proofs.StrRetain
+import BumpVerif.Proofs.StrProgram
 /-!
 # String part of C16: a panicking `retain` closure and UTF-8 validity (F6)
 
@@ -9,12 +9,14 @@ without (`guard = false`, the pinned tree) a drop guard that fixes the length on
       ∀ (l : List Char) (ans : Nat → Bool) (p : Option Nat) (r : RetainOut),
         retainWith guard (encode l) ans p = .ok r → Valid r.bytes
 
-It is FALSE for the code as it is (`Gen.STR_RETAIN_GUARD = 0`, regenerated from the source):
+Whether the source has the guard is regenerated from it on every run (`Gen.STR_RETAIN_GUARD`,
+tools/extract_str.py).  With the guard (the tree as it is since fix c99527b) the full statement
+holds: `C16_string_retain_valid`.  Without it the statement is FALSE (F6 of bumpalo 3.17.0):
 `retain` moves kept bytes down while it runs and only shortens the vector at the very end; a
-panic in the closure leaves `len` untouched over partly compacted bytes.  Below: the
-counterexample (the model reproduces the bytes the crate leaves: C3 A9 A9 7A), the part that
-does hold without the guard, and the full statement for the guarded loop of
-`proposed_fixes/F6-string-retain.diff` (so: the property holds iff the guard is there).
+panic in the closure leaves `len` untouched over partly compacted bytes — the counterexample
+below reproduces the bytes the unguarded loop leaves (C3 A9 A9 7A).  So the property holds
+iff the guard is there, and removing the guard from the source flips the flag and breaks the
+obligation `C16_string_retain_valid`.
 -/
 namespace Bump.Str
 
@@ -74,6 +76,70 @@ theorem C16_string_retain_iff_guard (guard : Bool) : RetainPanicSafe guard ↔ g
   · simp only [Bool.false_eq_true, iff_false]; exact C16_string_retain_valid_counterexample
   · simp only [iff_true]; exact C16_string_retain_valid_guarded
 
+/-- the source has the unwind guard (flag regenerated from src/collections/string.rs) -/
+theorem retain_guard_present : (Gen.STR_RETAIN_GUARD == 1) = true := by decide
+
+/-- **C16, String part, full strength, for `String::retain` as the source has it**: whatever
+the closure answers and wherever it panics, the string is valid UTF-8 afterwards. -/
+theorem C16_string_retain_valid (l : List Char) (ans : Nat → Bool) (p : Option Nat) (r : RetainOut)
+    (h : retain (encode l) ans p = .ok r) : Valid r.bytes := by
+  unfold retain at h
+  rw [retain_guard_present] at h
+  exact C16_string_retain_valid_guarded l ans p r h
+
+/-- … and `retain` always returns (no `bad` state): after a panic at call `p` the text is what
+was kept among the first `p` characters, the closure having been called `p + 1` times. -/
+theorem retain_total (l : List Char) (ans : Nat → Bool) (p : Option Nat) :
+    ∃ r, retain (encode l) ans p = .ok r ∧ Valid r.bytes ∧
+      r.bytes = encode (retainSpec ans 0 (match p with | some k => l.take k | none => l)) := by
+  unfold retain
+  rw [retain_guard_present]
+  match p with
+  | none => exact ⟨_, retainWith_spec true l ans, Valid_encode _, rfl⟩
+  | some k =>
+    by_cases hk : k < l.length
+    · exact ⟨_, retain_panic_guarded l ans k hk, Valid_encode _, rfl⟩
+    · refine ⟨_, retainWith_spec_late_panic true l ans k (by omega), Valid_encode _, ?_⟩
+      simp only; rw [List.take_of_length_le (by omega)]
+
+/-! ## both continuations: programs in which `retain` closures panic -/
+
+/-- a program step: any method of C14, or `retain` whose closure panics at call `p` (caught) -/
+inductive POp where
+  | op (o : SOp)
+  | retainPanic (ans : Nat → Bool) (p : Nat)
+
+def stepP (ovf : Bool) (s : Bytes) : POp → Option Bytes
+  | .op o => stepOp ovf s o
+  | .retainPanic ans p => match retain s ans (some p) with | .ok r => some r.bytes | _ => none
+
+def runP (ovf : Bool) : Bytes → List POp → Option Bytes
+  | s, [] => some s
+  | s, op :: ops => match stepP ovf s op with | some s' => runP ovf s' ops | none => none
+
+/-- **keep using the string after the panic**: every program, with `retain` closures panicking at
+arbitrary calls in between, keeps the string valid UTF-8 after every step and never reaches a
+`bad` state (dropping it instead touches no text: `Vec<u8>` has no element destructors). -/
+theorem C16_string_program_valid (ovf : Bool) (ops : List POp) : ∀ {s : Bytes}, Valid s →
+    ∃ s', runP ovf s ops = some s' ∧ Valid s' := by
+  induction ops with
+  | nil => intro s hv; exact ⟨s, rfl, hv⟩
+  | cons op ops ih =>
+    intro s hv
+    have h1 : ∃ s₁, stepP ovf s op = some s₁ ∧ Valid s₁ := by
+      cases op with
+      | op o => exact stepOp_valid ovf hv o
+      | retainPanic ans p =>
+        obtain ⟨l, rfl⟩ := hv
+        obtain ⟨r, hr, hvr, -⟩ := retain_total l ans (some p)
+        exact ⟨r.bytes, by simp [stepP, hr], hvr⟩
+    obtain ⟨s₁, h₁, hv₁⟩ := h1
+    obtain ⟨s₂, h₂, hv₂⟩ := ih hv₁
+    exact ⟨s₂, by simp [runP, h₁, h₂], hv₂⟩
+
+example : runP false [] [.op (.fromStr ['a', 'é', 'z']), .retainPanic (ansOf [false, true, true]) 2, .op (.push 'q')]
+    = some (encode ['é', 'q']) := by decide
+
 /-- After a panic that leaves valid text, using the string further keeps it valid; dropping it
 touches no text at all (`Vec<u8>` has no element destructors): both continuations of C16. -/
 theorem retain_panic_then_push (l : List Char) (ans : Nat → Bool) (k : Nat) (hk : k < l.length)
@@ -84,6 +150,9 @@ theorem retain_panic_then_push (l : List Char) (ans : Nat → Bool) (k : Nat) (h
 
 end Bump.Str
 
+#print axioms Bump.Str.C16_string_retain_valid
+#print axioms Bump.Str.retain_total
+#print axioms Bump.Str.C16_string_program_valid
 #print axioms Bump.Str.C16_string_retain_valid_counterexample
 #print axioms Bump.Str.C16_string_retain_valid_partial
 #print axioms Bump.Str.C16_string_retain_valid_guarded
